@@ -560,7 +560,7 @@ def run(ctx):
         ctx.obligation("T6:translate", False, str(e))
         broken["T6:translate"] = "translator: " + str(e)
     vfiles = ["Interp/QOrd.v", "Interp/RfiModel.v", "Interp/SplineModel.v", "Gen/RangeGen.v", "Interp/RfiProofs.v",
-              "Interp/SplineProofs.v", "Interp/RangeProofs.v", "Properties_C10.v"]
+              "Interp/SplineProofs.v", "Interp/RangeProofs.v", "Interp/RfiRational.v", "Interp/C10Lemmas.v", "Properties_C10.v"]
     vfiles = [v for v in vfiles if os.path.exists(os.path.join(vplib.COQDIR, v))]
     ok, res = ctx.coq_obligations(vfiles)
     if not ok:
@@ -596,6 +596,8 @@ def run(ctx):
                     if c is not None:
                         corpus.append(c)
     ctx.extra["corpus_cases"] = len(corpus)
+    corpus_range = [c for c in corpus if c.op in ("newpar", "merr", "apply")]
+    corpus = [c for c in corpus if c.op not in ("newpar", "merr", "apply")]
     nrfi = 400 if not thorough else 6000
     npar = 120 if not thorough else 1500
     nspl = 250 if not thorough else 3000
@@ -605,6 +607,13 @@ def run(ctx):
     cases += gen_param_cases(rng, npar, R.fext)
     cases += gen_spline_cases(rng, nspl, R.min_dx)
     rcases = gen_range_cases(rng, nrng)
+    for c in corpus_range:           # range cases of the corpus: verdict from the bands
+        if c.op == "newpar":
+            rcases.append((c, "range_new_parameter", classify(c.cf[0], c.cf[-1], c.xp[0], c.xp[-1]), c.cf[0], c.cf[-1], c.xp[0], c.xp[-1]))
+        elif c.op == "merr":
+            rcases.append((c, "range_m_error", classify(c.cf[0], c.cf[-1], c.xp[0], c.xp[-1]), c.cf[0], c.cf[-1], c.xp[0], c.xp[-1]))
+        elif c.op == "apply":
+            rcases.append((c, "range_apply", classify(c.qs[0], c.qs[-1], c.cf[0], c.cf[-1]), c.qs[0], c.qs[-1], c.cf[0], c.cf[-1]))
     ctx.extra["generated"] = {"rfi/run": nrfi, "param/ipar": npar, "spline/corr": nspl, "range decisions": len(rcases)}
 
     couts, sig, err = R.run_c(cases + [rc[0] for rc in rcases])
